@@ -36,12 +36,12 @@ Status == pc = "status" /\ Emit("status") /\ UNCHANGED filesChanged
 Write == pc = "write" /\ filesChanged' = TRUE /\ UNCHANGED <<log, exit>> /\ Goto(IF MCommit(conf) THEN "prehook" ELSE "done")
 PreHook == pc = "prehook" /\ UNCHANGED filesChanged /\
            (IF conf.pre = "absent" THEN Goto("add") /\ UNCHANGED <<log, exit>>
-            ELSE Emit("prehook") /\ (IF conf.pre = "fail" THEN Fail ELSE Goto("add") /\ UNCHANGED exit))
+            ELSE Emit("prehook") /\ (IF HookFails(conf.pre) THEN Fail ELSE Goto("add") /\ UNCHANGED exit))
 Add == pc = "add" /\ Emit("add") /\ UNCHANGED filesChanged /\ (IF Fails("add") THEN Fail ELSE Goto("commit") /\ UNCHANGED exit)
 Commit == pc = "commit" /\ Emit("commit") /\ UNCHANGED filesChanged /\ (IF Fails("commit") THEN Fail ELSE Goto("posthook") /\ UNCHANGED exit)
 PostHook == pc = "posthook" /\ UNCHANGED filesChanged /\
            (IF conf.post = "absent" THEN Goto("tag") /\ UNCHANGED <<log, exit>>
-            ELSE Emit("posthook") /\ (IF conf.post = "fail" THEN Fail ELSE Goto("tag") /\ UNCHANGED exit))
+            ELSE Emit("posthook") /\ (IF HookFails(conf.post) THEN Fail ELSE Goto("tag") /\ UNCHANGED exit))
 Tag == pc = "tag" /\ UNCHANGED filesChanged /\
        (IF ~MTag(conf) THEN Goto("push") /\ UNCHANGED <<log, exit>>
         ELSE Emit(TagName(conf)) /\ (IF Fails("tag") THEN Fail ELSE Goto("push") /\ UNCHANGED exit))
